@@ -1,6 +1,6 @@
 (* The hypotheses of the C17 theorems are satisfiable on non-trivial inputs. *)
 From Coq Require Import List Arith Bool Lia.
-From PG Require Import Base.ListSet Base.Closure Graph.MGraph C16.Model C17.Model C17.Spec C17.Proofs.
+From PG Require Import Base.ListSet Base.Closure Graph.MGraph C16.Model C17.Model C17.Spec C17.Proofs C17.Proofs2.
 Import ListNotations.
 
 (* x=0 -> 1 <-> 2 <-> 3 <-> 4,  4 o-o 5 : the collider chain is followed to 4, not beyond *)
@@ -27,3 +27,11 @@ Proof. vm_compute. repeat split; reflexivity. Qed.
 (* lag filter: nodes 0..5 = (a,0),(a,1),(a,2),(b,0),(b,1),(b,2) *)
 Example ex_lag : lag_filter [0; 1; 2; 0; 1; 2] 0 4 [1; 2; 3; 4; 5] = [1; 3; 4].
 Proof. vm_compute. reflexivity. Qed.
+
+(* time-series encoding: L = 2, node 4 = (variable 1, |lag| 1); the lag list of a 6-node graph is what the harness passes *)
+Example ex_ts_enc : ts_enc 2 (1, 1) = 4 /\ ts_var 2 4 = 1 /\ ts_lag 2 4 = 1 /\ ts_lags 2 6 = [0; 1; 2; 0; 1; 2].
+Proof. vm_compute. repeat split; reflexivity. Qed.
+
+(* the as-is search on the collider chain: neighbours of x plus one collider step, i.e. {1,2}; the walk definition gives {1,2,3,4} *)
+Example ex_asis_depth2 : In 0 (V ex_chain) /\ guard_ok ex_chain 0 None /\ sort_set (pds_asis ex_chain 0 None) = [1; 2].
+Proof. split; [left; reflexivity|]. split; [exact I|]. vm_compute. reflexivity. Qed.
